@@ -90,14 +90,14 @@ def _sq(x):
 
 
 def _two_outputs(x, big_first):
-    """general_blockwise with two outputs on the same block grid: the block doubled (chunks of x) and one maximum per block
+    """general_blockwise with two outputs on the same block grid: the block widened to complex128 (chunks of x) and one maximum per block
     (1x1 chunks).  The projection must cover the larger output whichever position it is in."""
     from cubed.core.ops import general_blockwise
     from cubed.primitive.blockwise import ChunkKey, FunctionArgs
 
     def f(block):
         block = np.asarray(block)
-        big, small = block * 2.0, np.max(block, keepdims=True)
+        big, small = block.astype(np.complex128), np.max(block, keepdims=True)      # the big output is twice the input's size
         return (big, small) if big_first else (small, big)
 
     def back_key_function(out_key):
@@ -106,8 +106,8 @@ def _two_outputs(x, big_first):
     shapes, chunkss = [x.shape, x.numblocks], [x.chunks, ones]
     if not big_first:
         shapes, chunkss = shapes[::-1], chunkss[::-1]
-    return general_blockwise(f, back_key_function, x, shapes=shapes, dtypes=[np.float64, np.float64], chunkss=chunkss,
-                             target_stores=[None, None])
+    dtypes = [np.complex128, np.float64] if big_first else [np.float64, np.complex128]
+    return general_blockwise(f, back_key_function, x, shapes=shapes, dtypes=dtypes, chunkss=chunkss, target_stores=[None, None])
 
 
 def _diamond(xp, a, b):
